@@ -206,3 +206,138 @@ def c05c_pos(ex, st, x):
     if z3.is_app(t) and t.decl().kind() == z3.Z3_OP_SELECT and t.arg(1).sort() == z3.IntSort():
         return v_int(t.arg(1))
     raise Unsupported('c05c_pos: the value is not an element read from a sequence')
+
+
+# ------------------------------------------------------------------------------------------------ closed form of lnG_i
+def _eval_text(ex, st, text, env):
+    saved = st.locals
+    st.locals = dict(saved)
+    st.locals.update(env)
+    st.spec += 1
+    try:
+        return ex.ev(st, ast.parse(text, mode='eval').body)
+    finally:
+        st.spec -= 1
+        st.locals = saved
+
+
+def _key_real(x: V):
+    return as_real(x) if x.kind in ('int', 'real', 'bool') else Val.nv(x.t)
+
+
+def _nest_uf(name, rng):
+    return z3.Function(name, Val, z3.RealSort(), rng)
+
+
+@spec('c05c_innest')
+def c05c_innest(ex, st, nests, x):
+    from pyvc.vals import v_bool
+    return v_bool(_nest_uf('c05c_innest', z3.BoolSort())(nests.t, _key_real(x)))
+
+
+@spec('c05c_nestof')
+def c05c_nestof(ex, st, nests, x):
+    from pyvc.vals import v_int
+    t = _nest_uf('c05c_nestof', z3.IntSort())(nests.t, _key_real(x))
+    st.mark_nonneg(t)              # the choice functions are non-negative everywhere (axiom 2 below)
+    return v_int(t)
+
+
+@spec('c05c_posof')
+def c05c_posof(ex, st, nests, x):
+    from pyvc.vals import v_int
+    t = _nest_uf('c05c_posof', z3.IntSort())(nests.t, _key_real(x))
+    st.mark_nonneg(t)
+    return v_int(t)
+
+
+_T = 'nests.tuple_of_nests'
+PARTITION_TEXT = (
+    f"forall(lambda a: forall(lambda b: implies(a != b, forall(lambda p: forall(lambda r: "
+    f"{_T}[a].list_of_alternatives[p] != {_T}[b].list_of_alternatives[r], 0, len({_T}[b].list_of_alternatives)), "
+    f"0, len({_T}[a].list_of_alternatives))), 0, len({_T})), 0, len({_T})) and "
+    f"implies(nests.alone is not None, forall(lambda a: forall(lambda p: "
+    f"{_T}[a].list_of_alternatives[p] not in typed(nests.alone, 'set[int]'), 0, len({_T}[a].list_of_alternatives)), 0, len({_T})))")
+
+
+@spec('c05c_partition')
+def c05c_partition(ex, st, nests):
+    """DEFINITION  c05c_partition(nests): the nests are pairwise disjoint (position-wise) and none of their alternatives is
+    in `nests.alone`, read in the ENTRY state.  A propositional symbol of the nests object whose definition is unfolded
+    once per state (outside binders)."""
+    from pyvc.vals import v_bool
+    p = z3.Function('c05c_partition', Val, z3.BoolSort())(nests.t)
+    mark = ('c05c-partition', nests.t.get_id())
+    if not st.bound and mark not in st.ghost:
+        st.ghost[mark] = True
+        st.use_old += 1
+        try:
+            d = ex.truth(st, _eval_text(ex, st, PARTITION_TEXT, {'nests': nests}))
+        finally:
+            st.use_old -= 1
+        st.pc.append(p == d)
+    return v_bool(p)
+
+
+def LNG_G(nest: str, alt: str) -> str:
+    return (f"((c05c_val({nest}.nest_param) - 1.0) * c05c_val(util[{alt}]) + "
+            f"(1.0 / c05c_val({nest}.nest_param) - 1.0) * app('numpy.log', c05c_nestsum({nest}, util, availability)))")
+
+
+_NOF = 'c05c_nestof(nests, x)'
+_POF = 'c05c_posof(nests, x)'
+LNG_AXIOMS = [
+    # every alternative of a nest is `in a nest`
+    f"forall(lambda q: forall(lambda p: c05c_innest(nests, {_T}[q].list_of_alternatives[p]), 0, len({_T}[q].list_of_alternatives)), 0, len({_T}))",
+    # an alternative `in a nest` is at position posof(x) of nest nestof(x)  (choice functions)
+    f"forall(lambda x: 0 <= {_NOF} and 0 <= {_POF} and implies(c05c_innest(nests, x), {_NOF} < len({_T}) and "
+    f"{_POF} < len({_T}[{_NOF}].list_of_alternatives) and {_T}[{_NOF}].list_of_alternatives[{_POF}] == x), ty='int')",
+    # ln G_x: the nested-logit term of its nest, 0 outside every nest
+    f"forall(lambda x: c05c_lng(nests, util, availability, x) == ite(c05c_innest(nests, x), {LNG_G(_T + '[' + _NOF + ']', 'x')}, 0.0), ty='int')",
+]
+
+
+@spec('c05c_lng')
+def c05c_lng(ex, st, nests, util, av, x):
+    """DEFINITION  c05c_lng(nests, util, av, i) = ln dG/dy_i of the nested logit as the builders publish it:
+         (mu_m - 1) V_i + (1/mu_m - 1) log c05c_nestsum(nest m, util, av)   when i is an alternative of a nest m,
+         0                                                                  when i is in no nest,
+    read in the ENTRY state.  `in a nest`, the nest and the position are the symbols c05c_innest / c05c_nestof / c05c_posof
+    with their defining axioms (choice functions: a conservative extension; when nests overlap nestof picks one of them).
+    This function only builds the term; the three defining axioms are the value of c05c_lng_definition(nests, util, av)
+    and are brought into a proof explicitly (c05c_cut_with): as standing hypotheses they make the solver diverge."""
+    t = z3.Function('c05c_lng', Val, Val, Val, z3.RealSort(), z3.RealSort())(
+        nests.t, util.t, av.t if av.t is not None else Val.none, _key_real(x))
+    return v_real(t)
+
+
+@spec('c05c_lng_definition')
+def c05c_lng_definition(ex, st, nests, util, av):
+    from pyvc.vals import v_bool
+    saved_bound, saved_guards = st.bound, st.guards
+    st.bound, st.guards = [], []
+    st.use_old += 1
+    try:
+        fs = [ex.truth(st, _eval_text(ex, st, txt, {'nests': nests, 'util': util, 'availability': av})) for txt in LNG_AXIOMS]
+    finally:
+        st.use_old -= 1
+        st.bound, st.guards = saved_bound, saved_guards
+    return v_bool(z3.And(*fs))
+
+
+@spec('c05c_cut_with')
+def c05c_cut_with(ex, st, label, defs, lam):
+    """c05c_cut_with('name', lambda: definitions, lambda: fact): like c05c_cut, but `fact` is proved from the current path
+    TOGETHER WITH the definitional axioms `definitions` of spec functions (a conservative extension), and then `fact` alone
+    is kept: the definitions do not stay among the hypotheses."""
+    from pyvc.vals import v_bool
+    proving = getattr(ex, 'c05c_proving', 0) > 0 or getattr(ex, 'c05c_hint', 0) > 0
+    if proving and ex.frame.depth == 0 and not st.bound and isinstance(label.lit, str):
+        s2 = st.copy()
+        d = ex.truth(s2, ex.call(s2, defs, [], {}, None))
+        s2.pc.append(d)
+        f = ex.truth(s2, ex.call(s2, lam, [], {}, None))
+        ex.ctx.add_oblig(s2, 'lemma', label.lit, f)
+        f2 = ex.truth(st, ex.call(st, lam, [], {}, None))
+        st.assume(f2)
+    return v_bool(True)
